@@ -135,7 +135,16 @@ static bool base_mem_exec(MemT& m, const std::string& e, const Value& ev) {
   return true;
 }
 
-static std::string gen_base_mem(vj::Rng& r, int arch /*0 base, 1 x86, 2 a64*/) {
+// X04_SAFE=1 (sanitizer runs): offsets are chosen so that BaseMem::add_offset's signed 64-bit addition cannot overflow (that UB is a finding of its own)
+static bool g_safe = getenv("X04_SAFE") && *getenv("X04_SAFE") == '1';
+static uint64_t safe_delta(vj::Rng& r, const BaseMem& cur) {
+  uint64_t v = rnd_v64(r);
+  if (!g_safe || !cur.is_offset_64bit()) return v;
+  int64_t res;
+  if (__builtin_add_overflow(int64_t(v), cur.offset(), &res)) return uint64_t(r.below(9)) - 4;
+  return v;
+}
+static std::string gen_base_mem(vj::Rng& r, const BaseMem& cur) {
   switch (r.below(19)) {
     case 0: return EvB("reset").done();
     case 1: return EvB("set_base_id").u32("id", rnd_id(r)).done();
@@ -148,8 +157,8 @@ static std::string gen_base_mem(vj::Rng& r, int arch /*0 base, 1 x86, 2 a64*/) {
     case 8: return EvB("reset_index").done();
     case 9: return EvB("set_offset").u64("v", rnd_v64(r)).done();
     case 10: return EvB("set_offset_lo32").u32("v", uint32_t(rnd_v64(r))).done();
-    case 11: return EvB("add_offset").u64("v", rnd_v64(r)).done();
-    case 12: return EvB("clone_adjusted").u64("v", rnd_v64(r)).done();
+    case 11: return EvB("add_offset").u64("v", safe_delta(r, cur)).done();
+    case 12: return EvB("clone_adjusted").u64("v", safe_delta(r, cur)).done();
     case 13: return EvB("add_offset_lo32").u32("v", uint32_t(rnd_v64(r))).done();
     case 14: return EvB("reset_offset").done();
     case 15: return EvB("reset_offset_lo32").done();
@@ -157,7 +166,6 @@ static std::string gen_base_mem(vj::Rng& r, int arch /*0 base, 1 x86, 2 a64*/) {
     case 17: return EvB("clear_reg_home").done();
     default: return EvB("clone").done();
   }
-  (void)arch;
 }
 
 struct BaseMemM : Machine {
@@ -178,7 +186,7 @@ struct BaseMemM : Machine {
   }
   std::string gen(vj::Rng& r) override {
     if (r.chance(1, 10)) return EvB("make_base").n("rt", rnd_rt(r)).u32("id", rnd_id(r)).u32("off", uint32_t(rnd_v64(r))).done();
-    return gen_base_mem(r, 0);
+    return gen_base_mem(r, m);
   }
 };
 
@@ -333,7 +341,7 @@ struct X86MemM : Machine {
       case 15: return EvB("set_broadcast").n("n", r.below(7)).done();
       case 16: return EvB("clone_broadcasted").n("n", r.below(7)).n("via", r.below(2)).done();
       case 17: return EvB("reset_broadcast").done();
-      default: return gen_base_mem(r, 1);
+      default: return gen_base_mem(r, m);
     }
   }
 };
@@ -418,8 +426,8 @@ struct A64MemM : Machine {
       case 7: return EvB("make_post_index").done();
       case 8: return EvB("pre").done();
       case 9: return EvB("post").done();
-      case 10: return EvB("pre_off").u64("v", rnd_v64(r)).done();
-      case 11: return EvB("post_off").u64("v", rnd_v64(r)).done();
+      case 10: return EvB("pre_off").u64("v", safe_delta(r, m)).done();
+      case 11: return EvB("post_off").u64("v", safe_delta(r, m)).done();
       case 12: return EvB("set_shift_op").n("n", r.below(14)).done();
       case 13: return EvB("reset_shift_op").done();
       case 14: return EvB("set_shift").n("n", r.below(32)).done();
@@ -427,7 +435,7 @@ struct A64MemM : Machine {
       case 16: return EvB("set_shift_s").n("sop", r.below(14)).n("n", r.below(32)).n("via", r.below(2)).done();
       case 17: return EvB("set_index_shift").n("rt", rnd_rt(r)).u32("id", rnd_id(r)).n("n", r.below(32)).done();
       case 18: return EvB("set_index_shift_s").n("rt", rnd_rt(r)).u32("id", rnd_id(r)).n("sop", r.below(14)).n("n", r.below(32)).n("via", r.below(2)).done();
-      default: return gen_base_mem(r, 2);
+      default: return gen_base_mem(r, m);
     }
   }
 };
